@@ -236,7 +236,30 @@ def c19(chk, thorough):
         chk.broke('the dimension of the spline coefficient columns could not be inferred')
 
 
+def c14(chk, thorough):
+    from . import strict
+    chk.explanation = (
+        'Decides the memory-safety / shape-consistency clauses of C14 by induction on the container invariants: each public '
+        'container operation of vector.c, list.c, matrix.c, tensor.c (create, resize, copy, append, delete, remove, set, get, '
+        'extend, sort) is analysed by symbolic extent abstract interpretation from ANY argument state satisfying the invariants '
+        '(operands shorter/equal/longer, arbitrary index arguments): every subscript is in range (PROVED / REFUTED with a shape '
+        'witness / UNDECIDED), nothing is used or freed after release, copies are deep, and the invariants hold again at every exit. '
+        'So any history of operations stays memory-safe. NOT decided: cell values after an operation (old cells preserved / new '
+        'cells zero), allocator failure, string contents.')
+    chk.assumptions = ['container invariants at entry: data holds >= row row pointers of >= col cells; vectors >= size cells; '
+                       'tensor/list pointer arrays hold >= order/size valid objects; a null data pointer implies zero counts',
+                       'distinct parameters do not alias the same container', 'LP64 (sizeof(double*) == sizeof(double))',
+                       'witness domain for shape atoms: 0..%d' % (6 if thorough else 3)]
+    prog = load_program(chk, ['vector.c', 'list.c', 'matrix.c', 'tensor.c', 'memwrapper.c'])
+    strict.run(chk, prog, dom=4 if thorough else 3)
+    if chk.extra.get('strict_functions', 0) < 70:
+        chk.broke('only %d strict-mode functions found, floor 70' % chk.extra.get('strict_functions', 0))
+    chk.floor('S.bounds', 250)
+    chk.floor('S.post-invariant', 60)
+
+
 CHECKS = {
+    'C14': c14,
     'C19': c19,
     'C10': c10,
     'C15': c15,
